@@ -1,4 +1,4 @@
-import Scion.Model.Bfd
+import Scion.Proofs.BfdAsync
 /-! # C16 — BFD sessions follow RFC 5880 and always recover
 
 Model: `Scion.Model.Bfd` (`transition` = fsm.go, `recvStep` = what `Session.Run` does with an
@@ -213,6 +213,105 @@ theorem two_sessions_recover (ha hb : List Input) (sched : Nat → Dir) (hf : Fa
     ∃ N, ∀ n, N ≤ n → pairAt sched (run initial ha, run initial hb) n = (.up, .up) :=
   two_sessions_reach_up sched hf _ ⟨never_adminDown ha, never_adminDown hb⟩
 
+/-! ### Two sessions with packets in flight (asynchronous exchange) -/
+
+/-- configurations that arise from a clean start (both sessions Down, nothing in flight) by
+sends and lossless in-order deliveries -/
+def ACleanReachable (c : ACfg) : Prop := ∃ acts : List Act, acts.foldl astep aInit = c
+
+theorem cleanReachable_inv (c : ACfg) (h : ACleanReachable c) : AInv c := by
+  obtain ⟨acts, rfl⟩ := h
+  have : ∀ (l : List Act) (c0 : ACfg), AInv c0 → AInv (l.foldl astep c0) := by
+    intro l
+    induction l with
+    | nil => intro c0 h0; exact h0
+    | cons x xs ih => intro c0 h0; exact ih _ (ainv_step c0 x h0)
+  exact this acts aInit ainv_init
+
+/-- **Two sessions reach Up and stay Up, with packets in flight.** Two FIFO channels; every
+delivered packet carries the state its sender had when it SENT it; both sessions keep sending
+their current state and both channels keep delivering (any fair interleaving of the four
+actions, any number of packets in flight). From every configuration that arises from a clean
+start — more generally from every configuration satisfying `AInv` — both sessions are Up from
+some point on, for ever. -/
+theorem async_two_sessions_reach_up (sched : Nat → Act) (hf : AFair sched) (c0 : ACfg)
+    (h0 : ACleanReachable c0) :
+    ∃ N, ∀ n, N ≤ n → (acfgAt sched c0 n).a = .up ∧ (acfgAt sched c0 n).b = .up :=
+  async_converges sched hf c0 (cleanReachable_inv c0 h0)
+
+/-- The same claim for ARBITRARY starting configurations (what a history with losses and
+detection-timer expiries can leave behind) — kept visible at full strength. It is FALSE for the
+untimed model: see `async_livelock`. -/
+def AsyncConvergesFromAnywhere : Prop :=
+  ∀ (c0 : ACfg), c0.a ≠ .adminDown → c0.b ≠ .adminDown →
+    (∀ x ∈ c0.qab, x ≠ .adminDown) → (∀ x ∈ c0.qba, x ≠ .adminDown) →
+    ∀ sched, AFair sched →
+      ∃ N, ∀ n, N ≤ n → (acfgAt sched c0 n).a = .up ∧ (acfgAt sched c0 n).b = .up
+
+/-- A is Down with a Down packet in flight, B is Up with an Init packet (sent before it came Up)
+still in flight: one packet per direction. -/
+def llCfg : ACfg := ⟨.down, .up, [.down], [.init]⟩
+
+/-- each side sends once between two receptions; the packet it sends is made stale by the
+reception that follows -/
+def llSched (n : Nat) : Act :=
+  match n % 10 with
+  | 0 => .recvB | 1 => .sendA | 2 => .recvA | 3 => .sendB | 4 => .recvB
+  | 5 => .sendA | 6 => .recvA | 7 => .sendB | 8 => .recvB | _ => .sendA
+
+theorem acfgAt_add (s : Nat → Act) (c : ACfg) (n m : Nat) :
+    acfgAt s c (n + m) = acfgAt (fun i => s (n + i)) (acfgAt s c n) m := by
+  induction m with
+  | zero => rfl
+  | succ m ih =>
+    have e : acfgAt s c (n + (m + 1)) = astep (acfgAt s c (n + m)) (s (n + m)) := rfl
+    rw [e, ih]; rfl
+
+theorem llSched_shift (k : Nat) : (fun i => llSched (10 * k + i)) = llSched := by
+  funext i
+  unfold llSched
+  have : (10 * k + i) % 10 = i % 10 := by omega
+  rw [this]
+
+theorem ll_period (k : Nat) : acfgAt llSched llCfg (10 * k) = llCfg := by
+  induction k with
+  | zero => rfl
+  | succ k ih =>
+    have e : 10 * (k + 1) = 10 * k + 10 := by omega
+    rw [e, acfgAt_add, ih, llSched_shift]
+    decide
+
+theorem ll_fair : AFair llSched := by
+  intro n x
+  have h : ∀ p, p < 10 → llSched (10 * (n + 1) + p) = llSched p := by
+    intro p _
+    unfold llSched
+    have : (10 * (n + 1) + p) % 10 = p % 10 := by omega
+    rw [this]
+  cases x
+  · exact ⟨10 * (n + 1) + 1, by omega, by rw [h 1 (by omega)]; rfl⟩
+  · exact ⟨10 * (n + 1) + 3, by omega, by rw [h 3 (by omega)]; rfl⟩
+  · exact ⟨10 * (n + 1) + 2, by omega, by rw [h 2 (by omega)]; rfl⟩
+  · exact ⟨10 * (n + 1) + 0, by omega, by rw [h 0 (by omega)]; rfl⟩
+
+/-- **Livelock.** Under the fair, lossless, in-order schedule `llSched` (never more than one
+packet in flight per direction) the two sessions started in `llCfg` go round a cycle of ten
+actions for ever: A is Down again every ten actions. Fairness alone does not make two RFC 5880
+state machines converge; real sessions rely on timing (packets arriving well within a
+transmission interval, and the random jitter of RFC 5880 §6.8.7 breaking the phase lock). -/
+theorem async_livelock : ¬ AsyncConvergesFromAnywhere := by
+  intro h
+  obtain ⟨N, hN⟩ := h llCfg (by decide) (by decide) (by decide) (by decide) llSched ll_fair
+  have := (hN (10 * N) (by omega)).1
+  rw [ll_period] at this
+  exact absurd this (by decide)
+
+/-- the livelock configuration arises from a clean start after ONE detection-timer expiry at A
+(B's Init packet still in flight when B is already Up, A times out and sends Down) -/
+theorem livelock_config_after_one_timeout :
+    astep (atimerA ([Act.sendA, .sendB, .recvA, .recvB, .sendA, .sendB, .recvB].foldl astep aInit))
+      .sendA = llCfg := by decide
+
 /-! ### Detection timer -/
 
 /-- **Silence goes Down.** Once the detection time armed by the last accepted packet has
@@ -326,6 +425,8 @@ example : Fair (fun n => if n % 2 = 0 then .ab else .ba) := by
     have : (2 * n + 1) % 2 = 1 := by omega
     simp [this]
 example : pairAt (fun n => if n % 2 = 0 then .ab else .ba) (.up, .down) 6 = (.up, .up) := by decide
+example : ACleanReachable ⟨.init, .down, [.down, .init], []⟩ :=
+  ⟨[.sendA, .sendB, .recvA, .sendA], by decide⟩
 example : ({ st := .up, deadline := 300 } : Timed).tick 300 = { st := .down, deadline := 300 + defaultDetect } := rfl
 
 end Scion.C16
